@@ -78,12 +78,21 @@ FUNCS += [
     dict(id='ResolveMutToml', file='src/resolve.rs', fn='resolve_mut', mod='toml', impl=r"impl ResolveMut for Value", lean='toml.resolve_mut',
          params=[('self', 'vroot'), ('ptr', 'ptrself')], ret='res', rtype=WALK_T, imports=['ForLen', 'SplitFront']),
 ]
+BUF_IMPL = r"impl PointerBuf \{"
+FUNCS += [
+    dict(id='FromTokens', file='src/pointer.rs', fn='from_tokens', impl=BUF_IMPL, lean='PointerBuf.from_tokens', params=[('tokens', 'toklist')], ret='pure', rtype='Bytes'),
+    dict(id='PushFront', file='src/pointer.rs', fn='push_front', impl=BUF_IMPL, lean='PointerBuf.push_front', params=[('self', 'bufself'), ('token', 'intotoken')], ret='mutself', rtype='Bytes'),
+    dict(id='PushBack', file='src/pointer.rs', fn='push_back', impl=BUF_IMPL, lean='PointerBuf.push_back', params=[('self', 'bufself'), ('token', 'intotoken')], ret='mutself', rtype='Bytes'),
+    dict(id='PopBack', file='src/pointer.rs', fn='pop_back', impl=BUF_IMPL, lean='PointerBuf.pop_back', params=[('self', 'bufself')], ret='mutself', rtype='Bytes × Option Bytes'),
+    dict(id='Append', file='src/pointer.rs', fn='append', impl=BUF_IMPL, lean='PointerBuf.append', params=[('self', 'bufself'), ('other', 'asrefptr')], ret='mutself', rtype='Bytes', imports=['IsRoot']),
+    dict(id='Clear', file='src/pointer.rs', fn='clear', impl=BUF_IMPL, lean='PointerBuf.clear', params=[('self', 'bufself')], ret='mutself', rtype='Bytes'),
+]
 SIBLINGS = {'split_front': ('Pointer.split_front', 'opt(tuple:tok,ptrself)'), 'is_root': ('Pointer.is_root', 'bool'), 'count': ('Pointer.count', 'nat'), 'split_at': ('Pointer.split_at', 'opt(tuple:bytes,bytes)'),
             'front': ('Pointer.front', 'opt(bytes)'), 'back': ('Pointer.back', 'opt(bytes)')}
 
 LEANTY = {'nat': 'Nat', 'bool': 'Bool', 'bytes': 'Bytes', 'cow': 'Cow', 'optnat': 'Option Nat', 'toklist': 'List Bytes',
           'tok': 'Bytes', 'index': 'Index', 'bound': 'Bound', 'ptr': 'Bytes', 'span': 'Span', 'tokself': 'Bytes',
-          'intocow': 'Bytes', 'unit': 'Unit', 'ptrself': 'Bytes', 'vref': 'Loc × Val', 'vroot': 'Val'}
+          'intocow': 'Bytes', 'unit': 'Unit', 'ptrself': 'Bytes', 'vref': 'Loc × Val', 'vroot': 'Val', 'bufself': 'Bytes', 'intotoken': 'Bytes', 'asrefptr': 'Bytes'}
 
 # enums the subset may match on / construct: type tag -> [(lean ctor, [rust paths], [field types])]
 ENUMS = {
@@ -189,6 +198,7 @@ class Fn:
                     expr(s[3], decl)
                     if s[1][0] == 'path' and len(s[1][1]) == 1:
                         if s[1][1][0] not in decl: add(s[1][1][0])
+                    elif s[1] == ('field', ('path', ['self']), '0'): add('self_0')
                     else: raise Unsupported("assignment to a place expression")
                 else: expr(s[1], decl)
         def expr(e, decl):
@@ -197,6 +207,9 @@ class Fn:
             if k == 'block':
                 stmts(e[1], decl)
                 if e[2] is not None: expr(e[2], decl)
+            elif k == 'mcall' and e[1] == ('field', ('path', ['self']), '0') and e[2] in ('push', 'push_str', 'insert', 'insert_str', 'pop', 'clear', 'split_off'):
+                add('self_0')
+                for a in e[3]: expr(a, decl)
             elif k == 'mcall' and e[2] in ('push', 'extend_from_slice', 'push_str') and e[1][0] == 'path' and len(e[1][1]) == 1:
                 if e[1][1][0] not in decl: add(e[1][1][0])
                 for a in e[3]: expr(a, decl)
@@ -373,6 +386,8 @@ class Fn:
             if ps in ('Vec::with_capacity', 'String::with_capacity') and len(args) == 1:
                 return k('([] : Bytes)', 'bytes')
             if ps in ('Vec::new', 'String::new') and not args: return k('([] : Bytes)', 'bytes')
+            if ps in ('PointerBuf', 'Self') and len(args) == 1 and self.spec['lean'].startswith('PointerBuf.'):
+                return self.E(args[0], env, ctx, lambda a, ta: k(a, 'bytes') if ta in BYTESLIKE else self.bad("PointerBuf(" + ta + ")"))
             if ps in ('String::from_utf8_unchecked', 'core::str::from_utf8_unchecked', 'str::from_utf8_unchecked',
                       'Pointer::new_unchecked', 'Self::new_unchecked', 'Token::from_encoded_unchecked') and len(args) == 1:
                 return self.E(args[0], env, ctx, lambda a, ta: k(a, 'bytes' if ta in BYTESLIKE else ta))
@@ -507,6 +522,14 @@ class Fn:
             if name == 'checked_add' and len(args) == 1 and tr == 'nat':
                 return self.E(args[0], env, ctx, lambda a, ta: k(f"(if {r} + {a} ≤ usizeMax then some ({r} + {a}) else none)", 'optnat'))
             if name == 'into_inner' and not args and tr.startswith('tuple:'): return k(r, tr)
+            if tr == 'intotoken' and name == 'into' and not args: return k(r, 'tok')
+            if tr == 'asrefptr' and name == 'as_ref' and not args: return k(r, 'ptrself')
+            if tr in BYTESLIKE and name in ('to_string', 'to_owned', 'clone') and not args: return k(r, 'bytes')
+            if tr == 'toklist' and name == 'into_iter' and not args: return k(r, 'toklist')
+            if tr == 'toklist' and name == 'map' and len(args) == 1 and args[0] == ('path', ['Into', 'into']): return k(r, 'toklist')
+            if name == 'split_off' and len(args) == 1 and recv == ('field', ('path', ['self']), '0') and env.get('self_0') == 'bytes':
+                tl = self.fresh('tail')
+                return self.E(args[0], env, ctx, lambda n, tn: f"let {tl} := self_0.drop {n}\nlet self_0 := self_0.take {n}\n{k(tl, 'bytes')}")
             # ---- tree walks ------------------------------------------------------------------------
             if tr == 'tok' or (tr in ('bytes',) and name in ('to_index', 'decoded')):
                 if name == 'to_index' and not args: return k(f"(Token.toIndex {r})", mk_res('index', 'pie'))
@@ -810,12 +833,15 @@ class Fn:
             raise Unsupported("let pattern")
         if kind == 'assign':
             lhs, op, rhs = st[1], st[2], st[3]
+            if lhs[0] == 'field' and lhs[1] == ('path', ['self']) and lhs[2] == '0' and env.get('self_0') == 'bytes':
+                lhs = ('path', ['self_0'])
             if lhs[0] != 'path' or len(lhs[1]) != 1 or lhs[1][0] not in env: raise Unsupported("assignment target")
             v = lhs[1][0]
             def after(a, ta):
                 env2 = dict(env)
                 if op == '=':
                     env2[v] = ta if ta != 'opt:nat' else 'optnat'
+                    if v == 'self_0': env2[v] = 'bytes'
                     return f"let {v} := {a}\n{rest(env2)}"
                 if op == '+=': return f"let {v} := {v} + {a}\n{rest(env2)}"
                 raise Unsupported("assignment operator " + op)
@@ -839,6 +865,22 @@ class Fn:
                     for v in self.pat_binds(s[1]):
                         if v in env: raise Unsupported("shadowing in an inner block")
             return self.S(inner + stmts[1:], env, ctx, k)
+        if t == 'mcall' and e[1] == ('field', ('path', ['self']), '0') and env.get('self_0') == 'bytes':
+            e = ('mcall', ('path', ['self_0']), e[2], e[3]); t = 'mcall'
+        if t == 'mcall' and e[1] == ('path', ['self_0']) and e[2] in ('insert', 'insert_str', 'pop', 'clear', 'truncate'):
+            name, args = e[2], e[3]
+            if name == 'clear' and not args: return f"let self_0 := ([] : Bytes)\n{rest(env)}"
+            if name == 'pop' and not args: return f"let self_0 := self_0.dropLast\n{rest(env)}"
+            if name in ('insert', 'insert_str') and len(args) == 2:
+                def aft_i(i, ti):
+                    def aft_x(x, tx):
+                        piece = f"[{x}]" if name == 'insert' else x
+                        if name == 'insert' and tx != 'nat': raise Unsupported("insert of " + tx)
+                        if name == 'insert_str' and tx not in BYTESLIKE: raise Unsupported("insert_str of " + tx)
+                        return f"let self_0 := self_0.take {i} ++ {piece} ++ self_0.drop {i}\n{rest(env)}"
+                    return self.E(args[1], env, ctx, aft_x)
+                return self.E(args[0], env, ctx, aft_i)
+            raise Unsupported("String method " + name)
         if t == 'mcall' and e[2] in ('push', 'extend_from_slice', 'push_str') and e[1][0] == 'path' and len(e[1][1]) == 1 and len(e[3]) == 1:
             v = e[1][1][0]
             if env.get(v) != 'bytes': raise Unsupported(e[2] + " on a non-buffer")
@@ -846,7 +888,7 @@ class Fn:
                 if e[2] == 'push':
                     if ta != 'nat': raise Unsupported("push of " + ta)
                     return f"let {v} := {v} ++ [{a}]\n{rest(env)}"
-                if ta not in ('bytes', 'tok'): raise Unsupported(e[2] + " of " + ta)
+                if ta not in BYTESLIKE: raise Unsupported(e[2] + " of " + ta)
                 return f"let {v} := {v} ++ {a}\n{rest(env)}"
             return self.E(e[3][0], env, ctx, after)
         if t == 'if':
@@ -944,6 +986,10 @@ class Fn:
                 if ta == 'optres-call': return ctx.ret(a)
                 raise Unsupported("returned " + ta)
             return self.E(e, env, ctx, after)
+        if rk == 'mutself':
+            if t == 'path' and e[1] == ['self']: return ctx.ret('()')
+            if t == 'path' and e[1] == ['None']: return ctx.ret('none')
+            return self.E(e, env, ctx, lambda a, ta: ctx.ret(a))
         if rk == 'resval':
             # a bool-valued function whose evaluation can panic (checked index inside the condition)
             return self.C(e, env, ctx, ctx.ret('.ok true'), ctx.ret('.ok false'))
@@ -1122,11 +1168,24 @@ class Fn:
                 env['self'] = 'alias:(self_0, self_1):tuple:bound,bound'
             elif rep == 'tokself':
                 lparams.append(('self', 'tokself')); env['self.inner'] = 'alias:self:tok'
+            elif rep == 'bufself':
+                # `&mut self` of a PointerBuf: its text is the mutable variable `self_0`; every exit returns it
+                lparams.append(('self_0', 'bytes')); env['self_0'] = 'bytes'; env['self'] = 'alias:self_0:ptrself'
             else:
                 ln = pname + '_' if pname in LEANKW else pname
                 lparams.append((ln, rep)); env[ln] = rep
         if len(rnames) != len(spec['params']): raise Unsupported(f"parameter list changed: {rnames}")
         ctx = Ctx(lambda t: t)
+        if self.retkind == 'mutself':
+            pair = '×' in self.rtype
+            ctx = Ctx((lambda t: f"(self_0, {t})") if pair else (lambda t: "self_0"))
+            blk = self.block
+            if blk[2] is None:        # a `()` function: falls off its end
+                code = self.S(self.norm_stmt_block(blk), env, ctx, lambda env2: ctx.ret('()'))
+            else:
+                code = self.S(self.norm_stmt_block(self.to_return(blk)), env, ctx, lambda env2: self.bad("function body falls off its end"))
+            ps = ''.join(f" ({n} : {LEANTY[t]})" for n, t in lparams)
+            return '\n\n'.join(self.loops + [f"def {spec['lean']}{ps} : {self.rtype} :=\n{ind(code)}"])
         body = self.to_return(self.block)
         code = self.S(self.norm_stmt_block(body), env, ctx, lambda env2: self.bad("function body falls off its end"))
         ps = ''.join(f" ({n} : {LEANTY[t]})" for n, t in lparams)
